@@ -109,13 +109,19 @@ def h_exotic(ctx, shape, m, route='ctor', twin=None):
     rc = to_real(sc, via='builder' if route == 'builder' else 'ctor')
     if route == 'boc':
         rc = Cell.one_from_boc(rc.to_boc())
+    if route == 'boc_hashes':
+        # a foreign bag of cells that stores the hashes and depths of every cell (one per significant level of its mask)
+        from harness.C05 import _ecells
+        from specs import bocspec
+        cells, order, ecs = _ecells(ctx, None, None, 'all', shape, m)
+        rc = Cell.one_from_boc(bocspec.encode(ecs, roots=(0,)))
     if twin == 'lvl':
         sc_w = sc
         ctx.require(rc.get_hash(1) == cell_hash(sc_w, 0) if sc.mask & 1 else rc.get_hash(2) == cell_hash(sc_w, 0), 'twin')
         return
     check_cell(ctx, sc, rc, shape)
     # every sub-cell as well (children built by the same route)
-    if route == 'boc':
+    if route in ('boc', 'boc_hashes'):
         for k, (s_kid, r_kid) in enumerate(zip(sc.refs, rc.refs)):
             check_cell(ctx, s_kid, r_kid, shape + ' child')
             ctx.require(r_kid.type_ == s_kid.typ, f'{shape}: parsed child type')
@@ -201,6 +207,8 @@ def instances(tier, seed):
             if sh in ('pruned', 'ord_over_pruned', 'mproof_ord_pruned', 'mupd', 'library'):
                 yield 'h_exotic', dict(shape=sh, m=m, route='builder')
                 yield 'h_exotic', dict(shape=sh, m=m, route='boc')
+            if sh in ('pruned', 'ord_over_pruned', 'mproof_ord_pruned', 'ord_over_two_pruned') and (tier == 'thorough' or (m in (2, 5, 6, 7) and sh != 'ord_over_pruned')):
+                yield 'h_exotic', dict(shape=sh, m=m, route='boc_hashes')
     for a in range(1, 8):
         for b in range(1, 8):
             incomparable = (a | b) not in (a, b)
@@ -242,7 +250,7 @@ BOUNDS = {
              '(plain and over ordinary cells, under an ordinary cell, under a Merkle proof) and under an ordinary cell (quick: all pairs for the '
              'update over two pruned branches, a seeded third of the incomparable pairs for the other shapes)',
     'symbolic': 'all ordinary data; the 32-byte hashes and 16-bit depths (<= 1000) stored in pruned branches; Merkle cell payloads; library hashes',
-    'routes': 'Cell constructor, Builder(type_=...), BoC round trip (Boc.deserialize_cell exotic path)',
+    'routes': 'Cell constructor, Builder(type_=...), BoC round trip (Boc.deserialize_cell exotic path), foreign BoC with stored hashes and depths on every cell',
 }
 OUTSIDE = ['nesting deeper than three Merkle cells', 'trees of more than 6 cells for the pruning claim',
            'rejection of malformed exotic cells (not part of the property)']
